@@ -31,8 +31,11 @@ CLAIMED = {
  "C03": dict(
   text="Theorems about a Gallina model of SQLLineageHolder._build_digraph and the role accessors at dataset level: for scripts without DROP/RENAME "
        "edges and source/target/intermediate equal the property's definition computed from the set of statements (order and repetition invariance), "
-       "DROP removes only isolated tables and disturbs nothing else, single RENAME to a fresh name puts y in x's place; chained RENAME refuted (K-C03-1).",
-  ref="DESIGN.md section 6 C03", note=TB + "Abstraction of a holder graph to (dataset nodes, read/write/drop/rename, wired) is harness code.",
+       "DROP removes only isolated tables and disturbs nothing else, single RENAME to a fresh name puts y in x's place; chained RENAME refuted (K-C03-1). "
+       "Refinement theorem (c03_full_model_refines, Holder/Refinement.v, 2700 lines): this abstract model is the dataset-level projection of the full "
+       "graph model Holder/Build.v (step simulation lifted to scripts; the role accessors agree), for all holder lists satisfying the executable "
+       "hypothesis wf_holder, which is evaluated on the implementation's own holders on every run.",
+  ref="DESIGN.md section 6 C03", note=TB + "The abstraction of a holder graph is defined and proved in Coq (abs_holder); the harness's own abstraction is cross-checked against it on every script.",
   tech="Coq proof (fold invariant, executable spec) + exhaustive abstract histories + SQL scripts"),
  "C04": dict(
   text="Theorems: path enumeration sound and complete, session view after each statement. The whole pipeline (statement loop with session metadata, "
